@@ -14,7 +14,7 @@ git -C /repo worktree add -q --detach "$D" "$C"
 case "$P" in
   "") ;;
   revert:*) git -C "$D" revert -n --no-edit "${P#revert:}" >/dev/null 2>&1 || { echo "REVERT-CONFLICT ${P#revert:}"; git -C /repo worktree remove --force "$D"; rm -rf "$E"; exit 3; } ;;
-  *) git -C "$D" apply "$P" ;;
+  *) git -C "$D" apply "$(readlink -f "$P")" ;;
 esac
 rc=0
 VERIF_REPO="$D" VERIF_EVIDENCE_DIR="$E" VERIF_REPLAY_DIR="$E" "$(dirname "$0")/../vcheck" "$@" || rc=$?
